@@ -36,8 +36,8 @@ import (
 
 const (
 	callTimeout = 8 * time.Second // per call; the machine may be heavily loaded by parallel shards and builds
-	diskMaxBlob = 8 << 20  // disk.WithMaxBlobSize: Put refuses larger blobs before reading anything
-	srvMaxBlob  = 16 << 20 // max_cas_blob_size of the gRPC/HTTP front ends (so 8..16 MiB reaches Put)
+	diskMaxBlob = 8 << 20         // disk.WithMaxBlobSize: Put refuses larger blobs before reading anything
+	srvMaxBlob  = 16 << 20        // max_cas_blob_size of the gRPC/HTTP front ends (so 8..16 MiB reaches Put)
 	emptySha    = "e3b0c44298fc1c149afbf4c8996fb92427ae41e4649b934ca495991b7852b855"
 )
 
@@ -83,6 +83,16 @@ func (m *monitor) takePanics() []panicRec {
 	m.panics = nil
 	return p
 }
+
+// a handler that was reported as still running is not waited for again
+func (m *monitor) giveUpOnInflight() {
+	m.mu.Lock()
+	defer m.mu.Unlock()
+	for id := range m.inflight {
+		delete(m.inflight, id)
+	}
+}
+
 func (m *monitor) inflightList() []string {
 	m.mu.Lock()
 	defer m.mu.Unlock()
@@ -140,6 +150,10 @@ type allServer interface {
 
 type fx struct {
 	mode   string
+	label  string // "" for the large caches; "tiny" / "tinyhard" for the ones that refuse uploads
+	max    int64  // max_size (0 = 512 MiB)
+	hard   int64  // max_size_hard_limit (0 = none)
+	proxy  cache.Proxy
 	dir    string
 	c      disk.Cache
 	srv    *grpc.Server
@@ -149,8 +163,8 @@ type fx struct {
 	ac     pb.ActionCacheClient
 	caps   pb.CapabilitiesClient
 	fetch  asset.FetchClient
-	direct allServer // depsCheck on, no mangling
-	nodeps allServer // depsCheck off, mangled AC keys
+	direct allServer        // depsCheck on, no mangling
+	nodeps allServer        // depsCheck off, mangled AC keys
 	hv     server.HTTPCache // validating AC
 	hraw   server.HTTPCache // raw AC, mangled keys
 	pool   []blob           // well-formed stored CAS blobs
@@ -160,7 +174,13 @@ type fx struct {
 
 var nullLog = log.New(io.Discard, "", 0)
 
-func newFx(mode string) *fx {
+func newFx(mode string) *fx { return newFxCfg(mode, "", 0, 0) }
+
+func newFxCfg(mode, label string, max, hard int64) *fx {
+	return newFxProxy(mode, label, max, hard, nil)
+}
+
+func newFxProxy(mode, label string, max, hard int64, proxy cache.Proxy) *fx {
 	base := ""
 	if st, e := os.Stat("/dev/shm"); e == nil && st.IsDir() && os.Getenv("VERIF_ABUSE_DISK") == "" {
 		base = "/dev/shm" // Put fsyncs every file; on tmpfs that is free
@@ -172,13 +192,15 @@ func newFx(mode string) *fx {
 	if err != nil {
 		panic(err)
 	}
-	return newFxIn(mode, dir)
+	return newFxAt(mode, dir, label, max, hard, proxy)
 }
 
-func newFxIn(mode, dir string) *fx {
+func newFxIn(mode, dir string) *fx { return newFxAt(mode, dir, "", 0, 0, nil) }
+
+func newFxAt(mode, dir, label string, max, hard int64, proxy cache.Proxy) *fx {
 	var err error
 	dir, _ = filepath.EvalSymlinks(dir)
-	f := &fx{mode: mode, dir: dir}
+	f := &fx{mode: mode, dir: dir, label: label, max: max, hard: hard, proxy: proxy}
 	f.open()
 	l := bufconn.Listen(1 << 20)
 	f.srv = grpc.NewServer(grpc.ChainUnaryInterceptor(unaryI), grpc.ChainStreamInterceptor(streamI),
@@ -201,7 +223,18 @@ func newFxIn(mode, dir string) *fx {
 // open creates the disk cache over f.dir (the gRPC server registered at creation keeps the first one;
 // the probes that plant files do so before calling newFx)
 func (f *fx) open() {
-	c, err := disk.New(f.dir, 512<<20, disk.WithAccessLogger(nullLog), disk.WithStorageMode(f.mode), disk.WithMaxBlobSize(diskMaxBlob))
+	max := f.max
+	if max == 0 {
+		max = 512 << 20
+	}
+	opts := []disk.Option{disk.WithAccessLogger(nullLog), disk.WithStorageMode(f.mode), disk.WithMaxBlobSize(diskMaxBlob)}
+	if f.hard > 0 {
+		opts = append(opts, disk.WithMaxSizeHardLimit(f.hard))
+	}
+	if f.proxy != nil {
+		opts = append(opts, disk.WithProxyBackend(f.proxy), disk.WithProxyMaxBlobSize(diskMaxBlob))
+	}
+	c, err := disk.New(f.dir, max, opts...)
 	if err != nil {
 		panic(err)
 	}
@@ -210,6 +243,13 @@ func (f *fx) open() {
 	f.nodeps = server.VerifNewACServer(c, nullLog, nullLog, false, true, srvMaxBlob).(allServer)
 	f.hv = server.NewHTTPCache(c, nullLog, nullLog, true, false, false, false, "", "", srvMaxBlob)
 	f.hraw = server.NewHTTPCache(c, nullLog, nullLog, false, true, false, false, "", "", srvMaxBlob)
+}
+
+func (f *fx) name() string {
+	if f.label != "" {
+		return f.label + "," + f.mode
+	}
+	return f.mode
 }
 
 func (f *fx) close() {
@@ -332,18 +372,34 @@ type quiet struct {
 	detail                           []string
 }
 
+// known: what was left behind earlier and has been reported already (it stays: a leaked goroutine
+// does not come back).  Every check reports only what is NEW since the previous one, so that the
+// oracle blames the requests that caused it.
+type known struct {
+	fds      map[string]int
+	stray    map[string]bool
+	reserved map[string]int64
+}
+
+func newKnown() *known {
+	return &known{fds: map[string]int{}, stray: map[string]bool{}, reserved: map[string]int64{}}
+}
+
 // quiesce waits for the server to come to rest and reports what is left behind.  base is the
-// set of goroutine signatures (with their counts) that exist in an idle server.
-func quiesce(base map[string]int, wait time.Duration, fxs ...*fx) quiet {
+// set of goroutine signatures (with their counts) that exist in an idle server (plus the ones
+// reported earlier).  With absorb, what is reported now becomes part of base / kn.
+func quiesce(base map[string]int, kn *known, absorb bool, wait time.Duration, fxs ...*fx) quiet {
 	var q quiet
 	deadline := time.Now().Add(wait)
 	for {
 		q = quiet{}
+		var count map[string]int
 		if l := mon.inflightList(); len(l) > 0 {
 			q.goroutines += len(l)
 			q.detail = append(q.detail, "handler still running: "+strings.Join(l, " ; "))
 		} else {
-			count, stacks := brGoroutines()
+			var stacks map[string]string
+			count, stacks = brGoroutines()
 			for sig, n := range count {
 				if n > base[sig] {
 					q.goroutines += n - base[sig]
@@ -352,23 +408,65 @@ func quiesce(base map[string]int, wait time.Duration, fxs ...*fx) quiet {
 			}
 		}
 		var dirs []string
+		resNow := map[string]int64{}
+		var strayNow []string
 		for _, f := range fxs {
 			dirs = append(dirs, f.dir)
 			_, res, _, _ := f.c.Stats()
-			if res != 0 {
-				q.reserved += int(res)
-				q.detail = append(q.detail, fmt.Sprintf("reserved bytes left (%s cache): %d", f.mode, res))
+			resNow[f.dir] = res
+			if res != kn.reserved[f.dir] {
+				q.reserved += int(res - kn.reserved[f.dir])
+				q.detail = append(q.detail, fmt.Sprintf("reserved bytes left (%s cache): %d", f.name(), res-kn.reserved[f.dir]))
 			}
-			if s := f.strayFiles(); len(s) > 0 {
+			var s []string
+			for _, x := range f.strayFiles() {
+				if !kn.stray[f.dir+"/"+x] {
+					s = append(s, x)
+					strayNow = append(strayNow, f.dir+"/"+x)
+				}
+			}
+			if len(s) > 0 {
 				q.stray += len(s)
-				q.detail = append(q.detail, fmt.Sprintf("stray file (%s cache): %s", f.mode, strings.Join(s, ", ")))
+				q.detail = append(q.detail, fmt.Sprintf("stray file (%s cache): %s", f.name(), strings.Join(s, ", ")))
 			}
 		}
-		if fds := fdsUnder(dirs...); len(fds) > 0 {
+		fdNow := map[string]int{}
+		for _, x := range fdsUnder(dirs...) {
+			fdNow[x]++
+		}
+		var fds []string
+		for x, n := range fdNow {
+			for i := kn.fds[x]; i < n; i++ {
+				fds = append(fds, x)
+			}
+		}
+		if len(fds) > 0 {
+			sort.Strings(fds)
 			q.fds = len(fds)
 			q.detail = append(q.detail, "open descriptor left: "+strings.Join(fds, ", "))
 		}
 		if len(q.detail) == 0 || time.Now().After(deadline) {
+			if absorb && len(q.detail) > 0 {
+				if count == nil {
+					mon.giveUpOnInflight()
+				}
+				for sig, n := range count {
+					if n > base[sig] {
+						base[sig] = n
+					}
+				}
+				for x, n := range fdNow {
+					if n > kn.fds[x] {
+						kn.fds[x] = n
+					}
+				}
+				for _, x := range strayNow {
+					kn.stray[x] = true
+				}
+				for dir, r := range resNow {
+					kn.reserved[dir] = r
+				}
+			}
 			return q
 		}
 		time.Sleep(20 * time.Millisecond)
